@@ -57,11 +57,14 @@ theorem delete_indep (c1 c2 : Cfg) (h : SameButEngine c1 c2) (h1 : Contractual c
   exact bget_encodeStore_indep c1 c2 hs hr k hk 0 (by decide)
 
 /-- Range reads: two engines whose reverse iterators honour the end bound on their first element
-(the iterator contract, C11) give the same `List` response — on ANY store and for ANY bounds, whatever
-their other open choices. Without that hypothesis the statement is FALSE (`list_indep_false`):
-`doList` only checks `cmp a b = .lt` on the RAW keys; when `a` is a proper prefix of `b` and the next
-byte of `b` is below the split byte (outside the documented alphabet) the encoded bounds are
-descending, the engine iterates backwards and `revFirstUnchecked` becomes visible. -/
+(the iterator contract, C11) give the same `List` response — on ANY store, for ANY bounds and ANY
+partitioning, whatever their other open choices. Up to /repo 23c8b93 the statement was FALSE without that
+hypothesis even on a single partition: `doList` only checks `cmp a b = .lt` on the RAW keys; when `a` is a
+proper prefix of `b` and the next byte of `b` is below the split byte (outside the documented alphabet) the
+bounds as encoded THEN were descending, the engine iterated backwards and `revFirstUnchecked` became visible
+(`former_counterexample_was_descending`). Since 23c8b93 the encoded bounds of a proper raw interval never run
+backwards (`KB.C10.bounds_ordered`) and the hypothesis is needed for backward-running PARTITIONS only
+(`list_indep_any_bounds`, `list_indep_ascending_any_bounds`). -/
 theorem list_indep (c1 c2 : Cfg) (h : SameButEngine c1 c2)
     (hr1 : c1.q.revFirstUnchecked = false) (hr2 : c2.q.revFirstUnchecked = false)
     (s : BState) (a b : Bytes) (R n : Nat) :
@@ -87,36 +90,29 @@ def kvsOf : ScanRes ListRes → Option (List (Bytes × Bytes × Nat))
   | .ok r => some r.kvs
   | _ => none
 
-/-- Range `["2", "2\x01")`: the two engines differ only in `revFirstUnchecked`, both are contractual,
-the store is well-formed, and the unchecked one returns a key that is not in the range. -/
-theorem list_indep_counterexample :
+/-- THE FORMER COUNTEREXAMPLE, range `["2", "2\x01")` (the two engines differ only in `revFirstUnchecked`, both
+are contractual, the store is well-formed): with the bound encoding of /repo 146f0bb (`encodeBoundOld`) — and
+the one before it — the encoded bounds were DESCENDING although the raw bounds ascend, and on such bounds the
+unchecked engine's iterator yields a key that is not in the range, the checked one nothing. -/
+theorem former_counterexample_was_descending :
     SameButEngine cexUnchecked cexChecked ∧ Contractual cexUnchecked.q ∧ Contractual cexChecked.q ∧
     StoreWF cexState.store ∧ cmp [50] [50, 1] = .lt ∧
-    cmp (encode [50] 0) (encode [50, 1] 0) = .gt ∧
-    kvsOf (doList cexUnchecked cexState [50] [50, 1] 0 0) = some [([40], [1], 5)] ∧
-    kvsOf (doList cexChecked cexState [50] [50, 1] 0 0) = some [] ∧
-    kvsOf (doList cexUnchecked cexState [50] [50, 1] 0 3) = some [([40], [1], 5)] ∧
-    kvsOf (doList cexChecked cexState [50] [50, 1] 0 3) = some [] := by
-  refine ⟨⟨rfl, rfl, rfl, rfl, rfl, rfl, rfl⟩, rfl, rfl, ?_, by decide, by decide, by decide, by decide,
-    by decide, by decide⟩
+    cmp (encodeBoundOld [50]) (encodeBoundOld [50, 1]) = .gt ∧
+    cmp (encodeBoundOldest [50]) (encodeBoundOldest [50, 1]) = .gt ∧
+    iterate cexUnchecked.q cexState.store (encodeBoundOld [50]) (encodeBoundOld [50, 1]) 0 = [(encode [40] 5, [1])] ∧
+    iterate cexChecked.q cexState.store (encodeBoundOld [50]) (encodeBoundOld [50, 1]) 0 = [] := by
+  refine ⟨⟨rfl, rfl, rfl, rfl, rfl, rfl, rfl⟩, rfl, rfl, ?_, by decide, by decide, by decide, by decide, by decide⟩
   exact ⟨[{ key := [40], rev := 5, val := [1], ik := encode [40] 5 }], rfl, by decide, by decide⟩
 
-/-- without the iterator-contract hypotheses the statement of `list_indep` does not hold -/
-theorem list_indep_false :
-    ¬ (∀ (c1 c2 : Cfg) (_ : SameButEngine c1 c2) (s : BState) (a b : Bytes) (R n : Nat),
-        (match doList c1 s a b R n, doList c2 s a b R n with
-         | .ok r1, .ok r2 => r1.hdr = r2.hdr ∧ r1.more = r2.more ∧ r1.kvs = r2.kvs
-         | .error e1, .error e2 => e1 = e2
-         | .panic, .panic => True
-         | _, _ => False)) := by
-  intro H
-  have h := H cexUnchecked cexChecked ⟨rfl, rfl, rfl, rfl, rfl, rfl, rfl⟩ cexState [50] [50, 1] 0 0
-  have e1 : doList cexUnchecked cexState [50] [50, 1] 0 0 =
-      .ok { hdr := 10, more := false, kvs := [([40], [1], 5)] } := by rfl
-  have e2 : doList cexChecked cexState [50] [50, 1] 0 0 = .ok { hdr := 10, more := false, kvs := [] } := by
-    rfl
-  rw [e1, e2] at h
-  simp at h
+/-- ... REPAIRED (/repo 23c8b93): the bound `"2\x01"` is encoded just after every version of `"2"`, the scan
+ascends, and the two engines give the same — correct, empty — answer, with and without a limit. -/
+theorem former_counterexample_repaired :
+    cmp (encodeBound [50]) (encodeBound [50, 1]) = .lt ∧
+    kvsOf (doList cexUnchecked cexState [50] [50, 1] 0 0) = some [] ∧
+    kvsOf (doList cexChecked cexState [50] [50, 1] 0 0) = some [] ∧
+    kvsOf (doList cexUnchecked cexState [50] [50, 1] 0 3) = some [] ∧
+    kvsOf (doList cexChecked cexState [50] [50, 1] 0 3) = some [] := by
+  refine ⟨by decide, by decide, by decide, by decide, by decide⟩
 
 /-! #### corrected statements -/
 
@@ -147,6 +143,33 @@ theorem list_indep_alphabet (c1 c2 : Cfg) (h : SameButEngine c1 c2) (hsplit : c1
   rw [doList_indep_single hp hs ht hsplit s ha hb R n]
   exact listRes_match_self _
 
+/-- Corrected (2), since /repo 23c8b93 for ARBITRARY bounds (any byte strings, low bytes included): on a
+single-partition engine NO open choice of the engine is visible in a range read, on any store. -/
+theorem list_indep_any_bounds (c1 c2 : Cfg) (h : SameButEngine c1 c2) (hsplit : c1.splits = [])
+    (s : BState) (a b : Bytes) (R n : Nat) :
+    (match doList c1 s a b R n, doList c2 s a b R n with
+     | .ok r1, .ok r2 => r1.hdr = r2.hdr ∧ r1.more = r2.more ∧ r1.kvs = r2.kvs
+     | .error e1, .error e2 => e1 = e2
+     | .panic, .panic => True
+     | _, _ => False) := by
+  obtain ⟨hp, _, _, hs, _, _, ht⟩ := h
+  rw [doList_indep_single' hp hs ht hsplit s a b R n]
+  exact listRes_match_self _
+
+/-- ... and with any partitioning, provided no adjusted partition runs backwards. -/
+theorem list_indep_ascending_any_bounds (c1 c2 : Cfg) (h : SameButEngine c1 c2)
+    (s : BState) (a b : Bytes)
+    (hasc : ∀ parts, scanPartitions c1 (encodeBound a) (encodeBound b) = some parts → ∀ p ∈ parts, cmp p.1 p.2 ≠ .gt)
+    (R n : Nat) :
+    (match doList c1 s a b R n, doList c2 s a b R n with
+     | .ok r1, .ok r2 => r1.hdr = r2.hdr ∧ r1.more = r2.more ∧ r1.kvs = r2.kvs
+     | .error e1, .error e2 => e1 = e2
+     | .panic, .panic => True
+     | _, _ => False) := by
+  obtain ⟨hp, _, _, hs, _, _, ht⟩ := h
+  rw [doList_indep_of_ascending' hp hs ht s a b hasc R n]
+  exact listRes_match_self _
+
 /-- Corrected (2'): the same with any partitioning, provided no adjusted partition runs backwards
 (true of sorted well-formed borders: KB.C13). -/
 theorem list_indep_ascending (c1 c2 : Cfg) (h : SameButEngine c1 c2)
@@ -170,5 +193,11 @@ theorem noncontractual_differs :
     (doUpdate { q := Quirks.tikvOld } s [47, 97] [1] 7 []).1 = .error .notFound ∧
     (doUpdate { q := Quirks.memkv } s [47, 97] [1] 7 []).1 = .condFailed 1001 none := by
   decide
+
+/-! Non-vacuity of the implications added with /repo 23c8b93: two configurations that differ in the engine only, on
+a single partition (every adjusted partition of which ascends), bounds with a low byte. -/
+example : SameButEngine cexUnchecked cexChecked ∧ cexUnchecked.splits = [] ∧ cmp [50] [50, 1] = .lt := ⟨⟨rfl, rfl, rfl, rfl, rfl, rfl, rfl⟩, rfl, by decide⟩
+example : ∀ parts, scanPartitions cexUnchecked (encodeBound [50]) (encodeBound [50, 1]) = some parts →
+    ∀ p ∈ parts, cmp p.1 p.2 ≠ .gt := by decide
 
 end KB.C12
